@@ -54,15 +54,6 @@ fn small_input(resumption: bool) -> PskSecretInput {
     PskSecretInput { id: make_id(resumption, &id, &nonce), psk: PreSharedKey::new(any_bytes::<2>()) }
 }
 
-/// run `f` for both PSK types
-fn for_each_type(mut f: impl FnMut(bool)) {
-    if kani::any() {
-        f(false)
-    } else {
-        f(true)
-    }
-}
-
 fn rfc_psk_label(id: &PreSharedKeyID, index: u16, count: u16) -> Vec<u8> {
     let mut o = Vec::with_capacity(48);
     match &id.key_id {
@@ -129,7 +120,7 @@ fn c13_psk_secret_1_bounded_2() {
     let i: [u8; 2] = kani::any();
     let n: [u8; 2] = kani::any();
     let value = any_bytes::<2>();
-    for_each_type(|resumption| {
+    for_each_bool(|resumption| {
         for_each_prefix(&i, |id| {
             for_each_prefix(&n, |nonce| {
                 let p = GhostProvider::new();
@@ -157,8 +148,8 @@ fn c13_psk_secret_1_bounded_2() {
 #[kani::stub(zeroize::optimization_barrier, noop_barrier)]
 #[kani::unwind(12)]
 fn c13_psk_secret_2_bounded_1() {
-    for_each_type(|ra| {
-        for_each_type(|rb| {
+    for_each_bool(|ra| {
+        for_each_bool(|rb| {
             let p = GhostProvider::new();
             let a = small_input(ra);
             let b = small_input(rb);
@@ -202,8 +193,8 @@ fn c13_psk_secret_provider_error() {
 #[kani::stub(zeroize::optimization_barrier, noop_barrier)]
 #[kani::unwind(12)]
 fn c18_psk_order_bounded_1() {
-    for_each_type(|ra| {
-        for_each_type(|rb| {
+    for_each_bool(|ra| {
+        for_each_bool(|rb| {
             let a = small_input(ra);
             let b = small_input(rb);
             let p = GhostProvider::new();
@@ -237,8 +228,8 @@ fn c18_psk_label_injective_bounded_1() {
     let b4: [u8; 1] = kani::any();
     let (xa, xb): (u16, u16) = (kani::any(), kani::any());
     let (ca, cb): (u16, u16) = (kani::any(), kani::any());
-    for_each_type(|ra| {
-        for_each_type(|rb| {
+    for_each_bool(|ra| {
+        for_each_bool(|rb| {
             for_each_prefix(&b1, |id_a| {
                 for_each_prefix(&b2, |nonce_a| {
                     for_each_prefix(&b3, |id_b| {
